@@ -1251,7 +1251,8 @@ class Delay(Function):
 
 
 def extractTerm(obj, time):
-    return obj.term(time) if isinstance(obj, Operator) else obj
+    # model elements have a term method too and must be evaluated at the requested time
+    return obj.term(time) if hasattr(obj, "term") else obj
 
 
 class Random(Function):
